@@ -6,8 +6,9 @@ from lib import wire
 TABLES = ['T03']
 RULE = ('(i) glob matcher: pattern x hostmask pairs, exhaustive up to length 3 (quick) / 4 (thorough) over the alphabet '
         '{a,A,[,{,\\,|,^,~,*,?,!,@,.} plus random long ones, real ircutils.hostmaskPatternEqual vs extracted model; '
-        '(ii) state machine: random histories (register/setUser with glob masks, delUser, identify, unidentify, clock advances, '
-        'lookups that warm the cache) on a real UsersDictionary with patched time.time; EVERY real transition is replayed as one '
+        '(ii) state machine: random histories (register/setUser with glob masks, delUser, identify = addAuth + setUser as every '
+        'caller does, unidentify, clock advances, lookups that warm the cache) on a real UsersDictionary with patched time.time; '
+        'the witnesses of the repaired findings F5 and F22 run first; EVERY real transition is replayed as one '
         'model step from a snapshot of the real state (so set-iteration order is an input) and the resulting state/return value '
         'diffed; direct oracle after every lookup: recognised only through own mask or live login, never two accounts, equals the '
         'cache-free recomputation; after every accepted setUser: no two accounts own masks matching one hostmask of the pool. '
@@ -16,14 +17,19 @@ TRUSTED = ["Python's re for the atoms the translator emits (differentially teste
            're.I is modelled for ASCII letters only (generators use ASCII + non-cased characters)',
            'the reverse index of _hostmaskCache and the _nameCache are not modelled (forward cache compared after every step)',
            'CacheDict eviction (1000 entries) is outside the explored histories']
-ASSUMPTIONS = ['hostmasks contain no LF; plugins call setUser after mutating a stored account (API discipline)']
+ASSUMPTIONS = ['hostmasks contain no LF; plugins call setUser after mutating a stored account (API discipline): in particular a login is '
+               'addAuth followed by setUser, which is where the repaired code drops the cache entries of the login hostmask']
 EXPLANATION = 'C04: glob matcher + user lookup state machine; theorems in coq/C04/Props.v'
 LEVEL_TEXT = ('Coq theorems over an executable Gallina model of the hostmask glob matcher and of the UsersDictionary lookup state machine '
               '(logins with timeout, hostmask cache, setUser overlap test): matcher = declarative glob semantics for all patterns/hostmasks and '
               'invariant under rfc1459 folding; a lookup that misses the cache returns an id only if exactly that account recognises the '
-              'hostmask (own mask or unexpired login); cache coherence proved as an invariant over arbitrary histories on the stated domain '
-              '(no login timeout, unambiguous states) and refuted by witnesses outside it (findings F5, F6); secure accounts need a matching '
-              'mask to log in.  Tie: per-transition refinement check of the real UsersDictionary against the extracted model + exhaustive '
+              'hostmask (own mask or unexpired login); for every state, cached or not, an answer is an account that recognises the hostmask '
+              'now and the one account a recomputation finds is answered (F5 repaired: cached ids are re-checked); cache coherence '
+              '(answer = cache-free recomputation) proved as an invariant over arbitrary histories for every login timeout and clock, '
+              'logins to other accounts included (F22 repaired), on the domain "an accepted setUser does not make the account match a '
+              'hostmask another account recognises" and refuted by a witness outside it (finding F6, setUser tests overlap literally); '
+              'secure accounts need a matching mask to log in.  Tie: per-transition refinement check of the real UsersDictionary '
+              'against the extracted model + exhaustive '
               'small-alphabet matcher comparison against the real regex translation.')
 LEVEL_NOTE = ('Trusted: Coq kernel, extraction + driver, harness; Python re for the emitted atoms (tested), ASCII-only re.I, forward-only '
               'cache model, name cache not modelled; clock and timeout are explicit inputs.')
@@ -134,8 +140,10 @@ def apply_real(mods, users, o):
             return ('ok', 0)
         if k == 'new':
             return ('ok', users.newUser().id)
-        if k == 'auth':
-            users.users[o[1]].addAuth(o[2])
+        if k == 'auth':                 # identify: what every caller of addAuth does (User.identify, GPG, NickAuth)
+            obj = users.users[o[1]]
+            obj.addAuth(o[2])
+            users.setUser(obj, flush=False)
             return ('ok', 0)
         if k == 'clear':
             users.users[o[1]].clearAuth()
@@ -256,44 +264,30 @@ def _fold(s):
     return s.translate(str.maketrans('ABCDEFGHIJKLMNOPQRSTUVWXYZ[]\\~', 'abcdefghijklmnopqrstuvwxyz{}|^'))
 
 
-def _expired_login_cached(inp):
-    """F5: a login timeout is configured and the failing lookup's hostmask was logged in earlier"""
-    hist = inp.get('history')
-    if not hist or hist['timeout'] <= 0 or inp.get('kind') != 'not-recognised-by-recomputation':
-        return False
-    return any(o[0] == 'auth' and o[2] == inp['h'] for o in hist['ops'][:inp['step']])
-
-
 def _overlapping_globs(inp):
-    """F6: two accounts were given glob masks with a common match that the literal overlap test cannot see"""
+    """F6: setUser's overlap test is literal.  An account was given a glob mask that has a common match with a glob mask
+    of another account, or that matches a hostmask another account is logged in from (neither is equal as a string)"""
     hist = inp.get('history')
     if not hist:
         return False
-    sets = [o for o in hist['ops'][:inp['step'] + 1] if o[0] == 'set']
+    upto = hist['ops'][:inp['step'] + 1]
+    sets = [o for o in upto if o[0] == 'set']
+    glob = lambda m: '*' in m or '?' in m
     for a, b in itertools.combinations(sets, 2):
         if a[1] != b[1]:
             for m1 in a[2][1]:
                 for m2 in b[2][1]:
-                    if ('*' in m1 or '?' in m1) and ('*' in m2 or '?' in m2) and any(ref_match(m1, h) and ref_match(m2, h) for h in HOSTS):
+                    if glob(m1) and glob(m2) and any(ref_match(m1, h) and ref_match(m2, h) for h in HOSTS):
                         return True
+    for a in sets:
+        for o in upto:
+            if o[0] == 'auth' and o[1] != a[1] and any(glob(m) and _fold(m) != _fold(o[2]) and ref_match(m, o[2]) for m in a[2][1]):
+                return True
     return False
 
 
-def _login_vs_mask(inp):
-    """F22: a hostmask logs in to one account while another account recognises it (own mask or login)"""
-    hist = inp.get('history')
-    if not hist:
-        return False
-    h = inp['h']
-    upto = hist['ops'][:inp['step'] + 1]
-    # the same hostmask under IRC case folding (N{CK!u@h is n[ck!u@h): one IRC client
-    auths = [o for o in upto if o[0] == 'auth' and _fold(o[2]) == _fold(h)]
-    sets = [o for o in upto if o[0] == 'set' and any(ref_match(m, h) for m in o[2][1])]
-    return any(a[1] != s[1] for a in auths for s in sets) or len(set(a[1] for a in auths)) > 1
-
-
-CLASSES = {'expired_login_cached': _expired_login_cached, 'overlapping_globs': _overlapping_globs,
-           'login_vs_mask': _login_vs_mask}
+# F5 (expired_login_cached) and F22 (login_vs_mask) are repaired: their classes are gone, their witnesses head the corpus
+CLASSES = {'overlapping_globs': _overlapping_globs}
 
 CORPUS = [
     {'timeout': 10, 'ops': [['new'], ['set', 1, ['u1', ['zz!zz@zz'], None, False]], ['auth', 1, 'ab!x@y'], ['lookup', 'ab!x@y'],
@@ -304,6 +298,13 @@ CORPUS = [
                            ['set', 2, ['u2', ['*b!*@*'], None, False]], ['lookup', 'ab!x@y']]},
     {'timeout': 0, 'ops': [['new'], ['new'], ['set', 1, ['u1', ['ab!x@y'], None, False]], ['set', 2, ['u2', ['zz!zz@zz'], None, False]],
                            ['lookup', 'ab!x@y'], ['auth', 2, 'ab!x@y'], ['lookup', 'ab!x@y']]},
+    # one login of the account has expired, a later one from another hostmask has not
+    {'timeout': 10, 'ops': [['new'], ['set', 1, ['u1', ['zz!zz@zz'], None, False]], ['auth', 1, 'ab!x@y'], ['lookup', 'ab!x@y'],
+                            ['tick', 8], ['auth', 1, 'q!q@q'], ['lookup', 'q!q@q'], ['lookup', 'ab!x@y'], ['tick', 5], ['lookup', 'ab!x@y'],
+                            ['lookup', 'q!q@q']]},
+    # a login from a hostmask a glob mask of another account matches, made while the hostmask is cached
+    {'timeout': 10, 'ops': [['new'], ['new'], ['set', 1, ['u1', ['a*!*@*'], None, False]], ['lookup', 'ab!x@y'], ['auth', 2, 'ab!x@y'],
+                            ['lookup', 'ab!x@y'], ['tick', 30], ['lookup', 'ab!x@y'], ['lookup', 'ab!x@y']]},
 ]
 
 
